@@ -1306,6 +1306,28 @@ fn run_family(ctx: &Ctx, family: &str, thorough: bool) {
     ctx.set(&format!("family_{}", family), json!({"index_space": d, "fonts": fonts, "instances": evals}));
 }
 
+/// Model fonts and user tuples handed to C09, which runs the structural validator on the instancer's output: a
+/// deterministic slice (every `stride`-th member of the index space) of the families whose glyph sets contain
+/// composites, several contours, many points and HVAR/MVAR metrics.
+pub fn corpus_for_c09(thorough: bool) -> Vec<(String, Vec<u8>, Vec<Vec<i32>>)> {
+    let mut out = Vec::new();
+    for (family, stride) in [("regions1", if thorough { 3usize } else { 11 }), ("regions2", if thorough { 7 } else { 5 }), ("metrics", 5), ("packing", 13), ("iup", if thorough { 211 } else { 1999 })] {
+        let d = dims(family, thorough);
+        let total: usize = d.iter().product();
+        for flat in (0..total).step_by(stride) {
+            let idx = decode(flat, &d);
+            if !in_tier(family, &idx, thorough) {
+                continue;
+            }
+            if let Some(case) = gen(family, &idx) {
+                let users: Vec<Vec<i32>> = case.coords.iter().map(|c| users_of(&case, c)).collect();
+                out.push((format!("c12 model font {} {:?}", family, idx), build_font(&case.font), users));
+            }
+        }
+    }
+    out
+}
+
 /// thorough: every normalised value of a 1-axis font
 fn run_full_grid(ctx: &Ctx) {
     let mut cases: Vec<(&str, Vec<usize>)> = Vec::new();
